@@ -181,9 +181,13 @@ def _oracle(w, drv, sc, out):
             shared = any(o.get("server", o["name"]).lower() == s.get("server", s["name"]).lower() for o in reg.values())
             withdrawals.append({"t": t, "mode": "unregister", "svcs": [s], "shared": {s["name"].lower(): shared}})
         elif kind == "close":
-            if reg:
-                withdrawals.append({"t": t, "mode": "close", "svcs": list(reg.values()),
-                                    "shared": {n: False for n in reg}})
+            # a registration that returned in the very instant close was called may or may not have been in the registry
+            # when the goodbye packet was built (and was never announced if it was not): no expectation either way
+            tied = {n.lower() for t2, k2, n in timeline if k2 == "reg" and abs(t2 - t) < 2e-6}
+            live = {n: s for n, s in reg.items() if n not in tied}
+            if live:
+                withdrawals.append({"t": t, "mode": "close", "svcs": list(live.values()),
+                                    "shared": {n: False for n in live}})
             reg = {}
     rtrace = [tx for tx in w.net.trace if tx.host == "R"]
     # deliveries of queries to R shortly before the withdrawal (non-triviality)
